@@ -74,8 +74,53 @@ def jsql(e, q=""):
     raise ValueError(k)
 
 
+def gen_m2m_forest(rnd, null_measures=True):
+    """ma <-> mb many_to_many THROUGH the junction mc, declared on ONE side only (ma or mb); the junction refers to ma by fk_a -> id and to mb by
+    fk_b -> id2 (an explicit primary_key on the relationship, or the related model's own key when mb is keyed by id2).  Optionally a fourth model
+    hangs off ma or mb by a many_to_one link.  Junction rows: several per ma / mb row, NULL and dangling references on both sides."""
+    def rows_for(k):
+        out = []
+        for r in range(k):
+            c0 = rnd.choice([None, 0, 1, 2, 5, -3, 10]) if null_measures else rnd.choice([0, 1, 2, 5, -3, 10])
+            out.append([r + 1, "k%d" % (r + 1), c0, rnd.choice([None, 0, 1, 2]), rnd.choice([None, "a", "a", "b", "c"]), None, None])
+        return out
+    ma = dict(name="ma", composite=False, rels=[], rows=rows_for(rnd.choice([1, 2, 3, 4])))
+    mb = dict(name="mb", composite=False, rels=[], rows=rows_for(rnd.choice([1, 2, 3, 4])))
+    mc = dict(name="mc", composite=False, rels=[], rows=rows_for(rnd.choice([0, 2, 4, 6, 8])))
+    for r in mc["rows"]:
+        x = rnd.random()
+        r[CI["fk_a"]] = None if x < 0.1 else 99 if x < 0.18 else rnd.choice(ma["rows"])[0]
+        y = rnd.random()
+        r[CI["fk_b"]] = None if y < 0.1 else "k99" if y < 0.18 else rnd.choice(mb["rows"])[1]
+    if rnd.random() < 0.5:
+        # declared on ma: the junction's key to "this" model is fk_a, to the related model fk_b (-> mb.id2)
+        ma["rels"].append(dict(name="mb", type="many_to_many", through="mc", through_foreign_key="fk_a", related_foreign_key="fk_b", primary_key="id2"))
+    else:
+        # declared on mb, whose OWN key is id2 here (so that the junction's fk_b reaches it): this side's key defaults to the model key
+        mb["pk"] = "id2"
+        mb["rels"].append(dict(name="ma", type="many_to_many", through="mc", through_foreign_key="fk_b", related_foreign_key="fk_a"))
+    models = [ma, mb, mc]
+    rnd.shuffle(models)            # registration order varies (the junction before or after the declaring model)
+    links = []
+    if rnd.random() < 0.4:
+        md = dict(name="md", composite=False, rels=[], rows=rows_for(rnd.choice([0, 2, 3, 5])))
+        parent = rnd.choice([ma, mb])
+        for r in md["rows"]:
+            x = rnd.random()
+            r[CI["fk_a"]] = None if x < 0.12 else 99 if x < 0.2 else rnd.choice(parent["rows"])[0]
+        if parent.get("pk") != "id2":
+            if rnd.random() < 0.5:
+                md["rels"].append(dict(name=parent["name"], type="many_to_one", foreign_key="fk_a"))
+            else:
+                parent["rels"].append(dict(name="md", type="one_to_many", foreign_key="fk_a"))
+            models.append(md)
+    return dict(models=models, links=links)
+
+
 def gen_forest(rnd, nmodels=None, allow_m2m=True, null_measures=True):
     """-> dict(models=[{name, composite, rels:[...], rows}], ...).  Relationship data is truthful w.r.t. the declared cardinality."""
+    if allow_m2m and (nmodels is None or nmodels >= 3) and rnd.random() < 0.15:
+        return gen_m2m_forest(rnd, null_measures)
     n = nmodels or rnd.randint(2, 5)
     models = [dict(name=NAMES[i], composite=False, rels=[], rows=[]) for i in range(n)]
     links = []     # (child index, parent index, type seen from child: m2o|o2o, composite?)
